@@ -14,7 +14,7 @@ import numpy as np
 from ..common import HarnessError, REPO, Report, VERIF, pmap
 
 PID = "C07"
-ACTS = ["draw17", "runother", "runother_seeded", "construct_only", "run_noisy", "options_logging", "run_1d_narrow", "same_arrays_first", "printoptions"]
+ACTS = ["draw17", "runother", "runother_seeded", "construct_only", "run_noisy", "options_logging", "run_1d_narrow", "same_arrays_first", "printoptions", "run_double_refit"]
 _SHARED = {}
 
 
@@ -97,6 +97,10 @@ def activity(a):
         # thinned differently by gridding / de-duplication / projection than those of the problems under test)
         BADS(lambda x: float(np.sum((np.asarray(x) - 0.1) ** 2)), x0=np.full((1, 1), 0.05), lower_bounds=np.full((1, 1), -0.2), upper_bounds=np.full((1, 1), 0.3),
              options={"display": "off", "max_fun_evals": 30, "random_seed": 4}).optimize()
+    elif a == "run_double_refit":
+        # an unrelated optimisation whose GP refits take the second-fit branch (module-level training defaults must not remember it)
+        BADS(lambda x: float(np.sum((np.asarray(x) + 0.3) ** 2)), x0=np.full((1, 1), 1.0), lower_bounds=np.full((1, 1), -4.0), upper_bounds=np.full((1, 1), 4.0),
+             options={"display": "off", "max_fun_evals": 28, "random_seed": 8, "double_refit": True}).optimize()
     elif a == "construct_only":
         BADS(lambda x: 0.0, x0=np.zeros((1, 5)), plausible_lower_bounds=np.full((1, 5), -1.0), plausible_upper_bounds=np.full((1, 5), 1.0), options={"display": "off", "random_seed": 123})
     elif a == "run_noisy":
